@@ -1,6 +1,7 @@
 package main
 
 import (
+	"go/types"
 	"fmt"
 	"go/token"
 	"sort"
@@ -369,6 +370,31 @@ func checkC20(p *Prog, r *Report) {
 		r.OK(kp("STATE", "query-reads-process-memory#none"), "query answers derive from the committed store only: no memory written by block processing or by queries is read by a query", "x/*",
 			fmt.Sprintf("%d functions in query scope, no written-and-read long-lived location", len(qs)))
 	}
+	// repeated queries at a fixed height give identical answers: no query answer is assembled in map iteration order
+	{
+		nMapQ := 0
+		for _, fn := range qs {
+			if fn.Blocks == nil {
+				continue
+			}
+			for _, b := range fn.Blocks {
+				for _, in := range b.Instrs {
+					rg, ok := in.(*ssa.Range)
+					if !ok {
+						continue
+					}
+					if _, isMap := rg.X.Type().Underlying().(*types.Map); !isMap {
+						continue
+					}
+					nMapQ++
+					why := mapLoopOrderSensitive(p, fn, rg)
+					r.Check(why == "", kp("ORDER", FuncName(fn)+"#query-range-over-map@"+blockTag(fn, b)), "a range over a Go map on a query path has an order-insensitive body", p.Pos(rg.Pos()),
+						"order-insensitive body", "the answer is assembled in map iteration order: "+why+" — the same query at the same height returns differently ordered (and differently paginated) answers from call to call")
+				}
+			}
+		}
+		r.Count("map-ranges-on-query-paths", nMapQ)
+	}
 	// append onto package-level slices
 	nApp := 0
 	for _, fn := range wide {
@@ -382,12 +408,10 @@ func checkC20(p *Prog, r *Report) {
 				if !ok || bi.Name() != "append" {
 					continue
 				}
-				u, ok := c.Call.Args[0].(*ssa.UnOp)
-				if !ok || u.Op != token.MUL {
-					continue
-				}
-				g, ok := u.X.(*ssa.Global)
-				if !ok || !InModulePkg(g.Pkg) {
+				// the appended-to slice is a package-level variable — loaded directly, or carried through a local and a loop
+				// (`vals := shared; for … { vals = append(vals, x) }`), or re-sliced (`shared[:0]`)
+				g := sliceGlobalBehind(c.Call.Args[0], map[ssa.Value]bool{c: true})
+				if g == nil || !InModulePkg(g.Pkg) {
 					continue
 				}
 				nApp++
@@ -398,4 +422,37 @@ func checkC20(p *Prog, r *Report) {
 		}
 	}
 	r.Floor("appends-onto-package-level-slices", nApp, 2)
+}
+
+
+// sliceGlobalBehind: the package-level slice variable whose backing array v may still share (through phis, re-slicing and type
+// changes; an append result is followed to its first operand, since append reuses the array while capacity lasts).
+func sliceGlobalBehind(v ssa.Value, seen map[ssa.Value]bool) *ssa.Global {
+	if v == nil || seen[v] || len(seen) > 40 {
+		return nil
+	}
+	seen[v] = true
+	switch x := v.(type) {
+	case *ssa.UnOp:
+		if x.Op == token.MUL {
+			if g, ok := x.X.(*ssa.Global); ok {
+				return g
+			}
+		}
+	case *ssa.Phi:
+		for _, e := range x.Edges {
+			if g := sliceGlobalBehind(e, seen); g != nil {
+				return g
+			}
+		}
+	case *ssa.Slice:
+		return sliceGlobalBehind(x.X, seen)
+	case *ssa.ChangeType:
+		return sliceGlobalBehind(x.X, seen)
+	case *ssa.Call:
+		if bi, ok := x.Call.Value.(*ssa.Builtin); ok && bi.Name() == "append" && len(x.Call.Args) > 0 {
+			return sliceGlobalBehind(x.Call.Args[0], seen)
+		}
+	}
+	return nil
 }
